@@ -694,7 +694,7 @@ def run(chk: Check):
         # one replay per failing class (key); every occurrence is counted in the evidence
         seen[key] = seen.get(key, 0) + 1
         if seen[key] == 1:
-            _report(key, desc, replay)
+            chk.spec_failure(key=key, desc=desc, replay=replay)
 
     gen_ok = regen_or_report(chk)
     if gen_ok:
